@@ -432,8 +432,7 @@ impl<'a> Engine<'a> {
             (Action::Batch { txs, expect_ok, label }, Real::Open(u)) => self.batch(n, u, txs, *expect_ok, label, a),
             (Action::Seal(act), Real::Open(u)) => self.seal(n, u, *act, a),
             (Action::Restart, Real::Sealed(s)) => {
-                let db = s.raw_coins_smt().database();
-                match guard(|| melstf::SealedState::from_block(&s.to_block(), &s.raw_stakes(), &db)) {
+                match guard(|| crate::world::restart_from_disk(s)) {
                     Err(p) => {
                         self.run.violation("C09", format!("from_block/{}", p.class()), format!("to_block/from_block panicked after [{}]: {}", n.path_str(), p.msg), n.replay_json(Some(a)));
                         StepOut::Pruned
